@@ -276,6 +276,33 @@ theorem fastq_layout_any_buffering (c : Nat) (sched : Nat → Nat) (hc : 1 ≤ c
   rw [fastq_read_any_buffering c sched hc hs _ hutf hws, fastq_layout L h]
   simp
 
+open RbV.BufLines in
+/-- **sniffer, FASTA**: on the writer's output for a non-empty list of valid records `get_kind` answers FASTA, and
+the FASTA reader on the returned `Chain` (one more admissible schedule, `chainSched`) yields the records — for every
+capacity and every schedule of the underlying source. -/
+theorem fastx_sniff_fasta (c : Nat) (sched : Nat → Nat) (hc : 1 ≤ c) (hs : Admissible sched)
+    (wrap : Option Nat) (recs : List FaRec) (hne : recs ≠ []) (hv : ∀ r ∈ recs, ValidFa r)
+    (hw : ∀ w, wrap = some w → 1 ≤ w)
+    (hutf : validUtf8 (writeFasta wrap recs) = true) (hws : NoUws (writeFasta wrap recs)) :
+    sniff (writeFasta wrap recs) = some .fasta ∧
+      parseFastaVia Txt.unicode c (chainSched sched) (writeFasta wrap recs) = recs.map fun r => .item (.ok r) := by
+  refine ⟨?_, fasta_roundtrip_any_buffering c _ hc (chainSched_admissible sched hs) wrap recs hv hw hutf hws⟩
+  cases recs with
+  | nil => exact absurd rfl hne
+  | cons r rs => simp [writeFasta, writeFastaRec, faHeaderBytes, sniff]
+
+open RbV.BufLines in
+/-- **sniffer, FASTQ** -/
+theorem fastx_sniff_fastq (c : Nat) (sched : Nat → Nat) (hc : 1 ≤ c) (hs : Admissible sched)
+    (recs : List FqRec) (hne : recs ≠ []) (hv : ∀ r ∈ recs, ValidFq r)
+    (hutf : validUtf8 (writeFastq recs) = true) (hws : NoUws (writeFastq recs)) :
+    sniff (writeFastq recs) = some .fastq ∧
+      parseFastqVia Txt.unicode c (chainSched sched) (writeFastq recs) = recs.map fun r => .item (.ok r) := by
+  refine ⟨?_, fastq_roundtrip_any_buffering c _ hc (chainSched_admissible sched hs) recs hv hutf hws⟩
+  cases recs with
+  | nil => exact absurd rfl hne
+  | cons r rs => simp [writeFastq, writeFastqRec, sniff]
+
 /-- ASCII is valid UTF-8 without non-ASCII white space (so the `hutf` / `hws` hypotheses hold for ASCII files) -/
 theorem ascii_plain_text (f : Bytes) (h : ∀ b ∈ f, b < 128) : validUtf8 f = true ∧ NoUws f :=
   ⟨validUtf8_ascii f h, fun b hb => by
